@@ -537,7 +537,11 @@ def run(tier: str, seed: int) -> int:
         for f in bounded.get("failures", [])[:6]:
             R.violation(f"bounded check on real code: {f['clause']}: {f['detail'][:300]}", {"failure": f}, True)
     R.level = "proof" if not R.undecided and n_ok == n_obl else "other"
+    from . import engine_diff
+
+    diff_summary = engine_diff.report(R, engine_diff.parse_diff(), "parser and tokenizer on concrete strings")
     R.coverage = {
+        "engine_differential": diff_summary,
         "obligations": n_obl,
         "discharged": n_ok,
         "checker_cmd": f"/verif/bin/check C11 --tier {tier}",
